@@ -36,17 +36,21 @@ Proof.
 Qed.
 
 Lemma le64_u64 n : le64 (u64 n) = le64 n.
-Proof. unfold le64, u64. change (2 ^ 64)%N with (256 ^ N.of_nat 8)%N. apply le_bytes_mod. Qed.
+Proof. unfold le64, u64. change 18446744073709551616%N with (256 ^ N.of_nat 8)%N. apply le_bytes_mod. Qed.
 Lemma le_decode_le64 n : le_decode (le64 n) = u64 n.
 Proof. unfold le64, u64. rewrite le_decode_le_bytes. reflexivity. Qed.
 
 Lemma u64_add_l a c : u64 (u64 a + c) = u64 (a + c).
-Proof. unfold u64. rewrite N.add_mod_idemp_l by (apply N.pow_nonzero; lia). reflexivity. Qed.
+Proof. unfold u64. rewrite N.add_mod_idemp_l by lia. reflexivity. Qed.
 Lemma u64_add_r a c : u64 (a + u64 c) = u64 (a + c).
-Proof. unfold u64. rewrite N.add_mod_idemp_r by (apply N.pow_nonzero; lia). reflexivity. Qed.
+Proof. unfold u64. rewrite N.add_mod_idemp_r by lia. reflexivity. Qed.
 
 Lemma i64_small z : (- 2 ^ 63 <= z < 2 ^ 63)%Z -> i64 z = z.
-Proof. intros Hz. unfold i64. rewrite Z.mod_small; lia. Qed.
+Proof.
+  intros Hz. unfold i64.
+  replace ((-9223372036854775808 <=? z) && (z <? 9223372036854775808))%Z with true; [reflexivity|].
+  symmetry. apply andb_true_iff. split; [apply Z.leb_le | apply Z.ltb_lt]; lia.
+Qed.
 
 Lemma chunks_of_length_bounds cs (Hcs : (0 < cs)%nat) data :
   (length data / cs <= length (chunks_of cs data) <= length data / cs + 1)%nat.
